@@ -294,6 +294,17 @@ def run(tier):
     if tier == "quick":
         sent = rng.sample(sent, 9000)
     oracle(chk, sent, "grammar-sentences", uncached_max_depth=5)
+    # (T) the production entry point (oal_syntax::parse) on nests, with and without a lexical error elsewhere in the text:
+    # memoisation must be in effect whatever the lexer reported (time bound: a parse of these texts takes milliseconds)
+    import c04
+    prod = c04.all_nests([8, 12, 16] if tier == "quick" else [8, 10, 12, 14, 16, 24, 40])
+    pobs = run_oalv_parallel("parse", [{"text": t} for t in prod], jobs=8)
+    for t, o in zip(prod, pobs):
+        if o.get("outcome") in ("hang", "abort"):
+            chk.violation("C12|not-linear|production-entry", "oal_syntax::parse does not answer in time on a %d-character nest: %r" % (len(t), t[:80]), {"text": t})
+        elif o.get("outcome") == "ok":
+            chk.cov["traces_validated_against_impl"] += 1
+    chk.cov["evaluations"] += len(prod)
     # (T) real programs and their token-level mutants
     texts = [t for _, t in corpus.texts()]
     kinds = [k for k in lex_kinds(texts) if k]
